@@ -14,9 +14,10 @@ Theorem C01_val_implies_ana_partial : forall x, WellFormedMath x -> val_math x =
 Proof. exact MathWF.val_implies_ana_partial. Qed.
 Print Assumptions C01_val_implies_ana_partial.
 
-(** the same whether or not the repair of the arity table (fixes/C01-mathml-arity.diff) is in the tree *)
-Theorem C01_val_implies_ana_partial_gen : forall fx x, WellFormedMath x ->
-  val_math_env_gen fx std_vars std_units x = [] /\ ana x <> None.
+(** the same whether or not the two proposed repairs of the arity pass (fixes/C01-mathml-arity.diff: fx;
+    fixes/C04-mathml-qualifier-children.diff: q) are in the tree *)
+Theorem C01_val_implies_ana_partial_gen : forall q fx x, WellFormedMath x ->
+  val_math_env_gen2 q fx std_vars std_units x = [] /\ ana x <> None.
 Proof. exact MathWF.val_implies_ana_partial_gen. Qed.
 Print Assumptions C01_val_implies_ana_partial_gen.
 
@@ -68,9 +69,17 @@ Theorem C01_arity_fix_closes :
 Proof. exact MathProofs.arity_fix_closes. Qed.
 Print Assumptions C01_arity_fix_closes.
 
+(** C04's repair (the arity pass descends into degree / logbase / bvar) closes the witnesses hidden below a qualifier,
+    except the empty piecewise. *)
+Theorem C01_qualifier_fix_closes :
+  val_qfixed w_unvalidated_degree <> [] /\ val_qfixed w_ci_empty_in_bvar <> []
+  /\ val_qfixed w_cn_empty_in_degree <> [] /\ val_qfixed w_cn_sep_in_degree <> [].
+Proof. exact MathProofs.qualifier_fix_closes. Qed.
+Print Assumptions C01_qualifier_fix_closes.
+
 (** The validator's own passes are null-safe on every tree: each mathmlChildNode(...)-> it performs is preceded by
     the count test that makes the child exist. *)
-Theorem C01_val_null_safe : forall fx vars units root, ~ In V_NULL_DEREF (val_math_env_gen fx vars units root).
+Theorem C01_val_null_safe : forall q fx vars units root, ~ In V_NULL_DEREF (val_math_env_gen2 q fx vars units root).
 Proof. exact MathProofs.val_null_safe. Qed.
 Print Assumptions C01_val_null_safe.
 
